@@ -294,3 +294,10 @@ Definition wire_102 (x : sx) : sx :=
       L [L p1; L p2]
   | _ => sx_err
   end.
+
+(* guard of C10_per_dump_partial: the initial value is used by the code as the rule says, i.e. NOT the F14 situation
+   (an initial value is given, no event at or before the start of dump 0, and an event inside dump 0) *)
+Definition opt_eqb (a b : option Z) : bool :=
+  match a, b with Some x, Some y => x =? y | None, None => true | _, _ => false end.
+Definition c10_guard (ts ends : list Z) (P : Z) (init : option Z) : bool :=
+  opt_eqb (init_as_coded ts ends P init) init.
